@@ -32,6 +32,11 @@ class RandProblem(Problem):
             out["F"] = out["F"] * self.oscales
         if self.oshift is not None:
             out["F"] = out["F"] - self.oshift
+        if getattr(self, "pole", None) is not None:
+            # a region of the box in which one objective is +inf (a pole, a failed simulation reported as inf): such points are still
+            # comparable in the other objectives
+            j, k, t = self.pole
+            F = np.array(out["F"], dtype=float); F[Z[:, k] > t, j] = np.inf; out["F"] = F
         if self.n_ieq_constr > 0:
             out["G"] = np.round((Z @ self.B.T)[:, :self.n_ieq_constr] + self.shift, self.digits) * self.gscale
         if self.n_eq_constr > 0:
@@ -93,6 +98,12 @@ def gen_hist_case(rng, algs=("DE", "NSDE", "GDE3", "GDE3MNN", "GDE32NN", "GDE3P"
         cfg["surv"] = "default"; cfg["cf"] = "cd"      # no survival argument: the algorithm's own default operator
     if alg not in ("GA", "EA") and rng.random() < 0.3:
         cfg["prime"] = True                             # the process has already stepped a default-constructed algorithm of this class on another problem
+    # (only with the NumPy metrics cd and ce: in the pruning metrics distances between points with infinite coordinates are NaN, the compiled
+    #  kernels' treatment of NaN is outside the model and C13 does not quantify over infinite objective values)
+    if n_obj >= 2 and rng.random() < 0.15 and alg in ("NSDE", "GDE3", "GA", "EA") and cfg["cf"] in ("cd", "ce"):
+        cfg["pole"] = [rng.randrange(n_obj), rng.randrange(n_var), rng.choice([0.5, 0.7, 0.85])]     # objective j is +inf where variable k is in the upper part of its range
+    if alg not in ("GA", "EA") and rng.random() < 0.12:
+        cfg["no_adv_init"] = True                       # the constructor flag advance_after_initial_infill=False
     if alg in ("GA", "EA"):
         cfg["n_off"] = rng.choice([ps, max(2, ps // 2), 3])
         cfg["n_init"] = rng.choice([ps, ps, max(4, ps - 3), max(4, ps // 2)])
@@ -135,6 +146,10 @@ SCENARIOS = [
      and not c.get("late_feasible") and c["pop_size"] >= 8 and feasible_share(c) <= 0.3),
     # the dither range handed over as one float array that every construction in the process shares
     ("shared-F-array", lambda c: bool(c.get("F_array"))),
+    # an unusual constructor flag that the DE algorithms accept (the initial population is ranked all the same), feasible members from the start
+    # an objective that is +inf on part of the box
+    ("infinite-objective-region", lambda c: c.get("pole") is not None and decarr(c["xu"])[c["pole"][1]] - decarr(c["xl"])[c["pole"][1]] > 1e-3),
+    ("no-advance-after-initial-infill", lambda c: bool(c.get("no_adv_init")) and (c["n_ieq"] == 0 or feasible_share(c) >= 0.3)),
 ]
 
 
@@ -159,10 +174,13 @@ def make_problem(cfg):
                        oscales=cfg.get("oscales"))
     if cfg.get("oshift") is not None:
         pr.oshift = np.array(cfg["oshift"], dtype=float)        # objectives that are negative for every point of the box (e.g. -f of a maximisation)
+    if cfg.get("pole") is not None:
+        pr.pole = (int(cfg["pole"][0]), int(cfg["pole"][1]), float(cfg["pole"][2]))
     return pr
 
 
 _SHARED_F = {}
+_SHARED_POP = {}
 
 
 def make_algorithm(cfg):
@@ -175,6 +193,21 @@ def make_algorithm(cfg):
         F = _SHARED_F.setdefault(F, np.array(F, dtype=float))
     kw = dict(pop_size=cfg["pop_size"], variant="DE/%s/%d/%s" % (cfg["sel"], cfg["y"], cfg["cx"]), CR=float.fromhex(cfg["CR"]), F=F, gamma=cfg["gamma"])
     a = cfg["alg"]
+    if cfg.get("warm_pop") and a not in ("GA", "EA"):
+        # warm start: the user hands over an evaluated Population object and keeps it; every construction for this configuration in the
+        # process gets that same object (pymoo uses it by reference)
+        key = (cfg["seed"], cfg["pop_size"], cfg["n_var"], a)
+        if key not in _SHARED_POP:
+            from pymoo.core.population import Population
+            from pymoo.core.evaluator import Evaluator
+            rs = np.random.RandomState(cfg["seed"] + 3)
+            xl, xu = decarr(cfg["xl"]), decarr(cfg["xu"])
+            p0 = Population.new("X", xl + rs.random_sample((cfg["pop_size"], cfg["n_var"])) * (xu - xl))
+            Evaluator().eval(make_problem(cfg), p0)
+            _SHARED_POP[key] = p0
+        kw["sampling"] = _SHARED_POP[key]
+    if cfg.get("no_adv_init") and a not in ("GA", "EA"):
+        kw["advance_after_initial_infill"] = False        # accepted by every DE algorithm; the initial population is ranked all the same
     if a in ("GA", "EA"):
         from pymoode.algorithms.base.genetic import GeneticAlgorithm
         from pymoo.operators.crossover.sbx import SBX
